@@ -145,4 +145,23 @@ def encRecord (d : Dialect) : Rec → List Char
 
 def render (d : Dialect) (recs : List Rec) : List Char := recs.flatMap (encRecord d)
 
+/-! the writer with its default line terminator `"\r\n"` (as `csv.writer(buf)` in file_cacher.py):
+    a carriage return in a cell is then a character of the line terminator and quotes the cell -/
+
+def needsQuoteCRLF (d : Dialect) (cell : Cell) : Bool :=
+  cell.any (fun c => c == d.delim || c == d.quote || c == '\r' || c == '\n')
+
+def encCellCRLF (d : Dialect) (cell : Cell) : List Char :=
+  if needsQuoteCRLF d cell then d.quote :: (escape d cell ++ [d.quote]) else cell
+
+def encCellsCRLF (d : Dialect) : List Cell → List Char
+  | [] => ['\r', '\n']
+  | [c] => encCellCRLF d c ++ ['\r', '\n']
+  | c :: cs => encCellCRLF d c ++ d.delim :: encCellsCRLF d cs
+
+def encRecordCRLF (d : Dialect) : Rec → List Char
+  | [] => ['\r', '\n']
+  | [[]] => [d.quote, d.quote, '\r', '\n']
+  | cs => encCellsCRLF d cs
+
 end Model.Csv
